@@ -91,7 +91,8 @@ func TestC04(t *testing.T) {
 		svcs := []cfg.Service{
 			{Name: "a", Ctor: sp("fx/lib.NewObj"), Tags: []cfg.Tag{{Name: "t"}, {Name: "u"}}},
 			{Name: "b", Ctor: sp("fx/lib.NewObj"), Tags: []cfg.Tag{{Name: "u", Prio: 5}, {Name: "t", Prio: -3}}},
-			{Name: "c", Ctor: sp("fx/lib.NewObj"), Args: []cfg.Val{cfg.Str("!tagged t"), cfg.Str("!tagged u")}},
+			{Name: "c", Ctor: sp("fx/lib.NewObj"), Args: []cfg.Val{cfg.Str("!tagged t"), cfg.Str("!tagged\nu"), cfg.Str("!tagged\r\n    t"), cfg.Str("!tagged \t u")},
+				Fields: []cfg.Field{{Name: "FieldA", Val: cfg.Str("!tagged\ft")}}, Calls: []cfg.Call{{Method: "Call1", Args: []cfg.Val{cfg.Str("!tagged\n\nu")}}}},
 		}
 		whole := cfg.Config{Meta: cfg.Meta{Pkg: sp("app")}, Services: svcs, Decorators: decs}
 		var c behCase
